@@ -7,6 +7,7 @@ SEED = os.path.join(ROOT, 'seeded')
 res_path = os.path.join(SEED, 'RESULTS.json')
 results = json.load(open(res_path)) if os.path.exists(res_path) else {}
 sel = sys.argv[1:]
+touched = set()
 wt = tempfile.mkdtemp(prefix='seeded_wt_', dir='/tmp')
 os.rmdir(wt)
 subprocess.check_call(['git', '-C', '/repo', 'worktree', 'add', '-q', wt, 'HEAD'])
@@ -16,6 +17,7 @@ try:
         if not os.path.exists(pd) or (sel and not any(d.startswith(s) for s in sel)):
             continue
         meta = json.load(open(os.path.join(SEED, d, 'meta.json')))
+        touched.add(d)
         pid = meta['property']
         r = subprocess.run(['git', '-C', wt, 'apply', pd], capture_output=True, text=True)
         if r.returncode != 0:
@@ -36,4 +38,10 @@ try:
 finally:
     subprocess.run(['git', '-C', '/repo', 'worktree', 'remove', '--force', wt])
     shutil.rmtree(wt, ignore_errors=True)
-json.dump(results, open(res_path, 'w'), indent=1, sort_keys=True)
+# merge with what other (parallel) runs wrote meanwhile: only the ids this run touched are replaced
+import fcntl
+with open(res_path + '.lock', 'w') as lk:
+    fcntl.flock(lk, fcntl.LOCK_EX)
+    cur = json.load(open(res_path)) if os.path.exists(res_path) else {}
+    cur.update({k: v for k, v in results.items() if k in touched})
+    json.dump(cur, open(res_path, 'w'), indent=1, sort_keys=True)
